@@ -73,7 +73,7 @@ class Site:
         return s
 
 
-FRAGMENT_ONLY_LINKS = False      # enabled once the fragment-only join defect (found 2026-09-27) is repaired; see notes/C01.md
+FRAGMENT_ONLY_LINKS = True       # the fragment-only join defect (extra request of the directory) was repaired by de6baa6
 
 
 SPELLINGS = [
@@ -310,6 +310,8 @@ class RefCrawl:
         kids = []
         seen = set()
         for raw, inline in p['links']:
+            if not raw.strip():
+                continue            # an empty href / src is no link (HTMLScraper skips it)
             c = norm(cur, raw)
             if c is None:
                 continue
